@@ -294,7 +294,7 @@ def gen_scenario(rng):
 
 def cases(seed, tier):
     rng = random.Random('c17-%s' % seed)
-    n = 40 if tier == 'quick' else 400
+    n = 80 if tier == 'quick' else 600
     out = []
     for i in range(n):
         prng = random.Random(rng.getrandbits(64))
